@@ -197,7 +197,9 @@ def step(h, tier):
 # --------------------------------------------------------------------------------------------------------- part (b)
 ASPECTS = [f'name:{k}' for k in KINDS] + ['set-identifier', 'header-id', 'ident:axis_id', 'ident:serial_number',
                                           'ident:label', 'ident:type', 'signed-int', 'channel-in-no-frame',
-                                          'channel-in-two-frames', 'non-uniform-index', 'unit:channel', 'unit:attr',
+                                          'channel-in-two-frames', 'non-uniform-index', 'non-uniform-index+spacing',
+                                          'non-uniform-index+direction', 'non-uniform-index+index-min-max',
+                                          'unit:channel', 'unit:attr',
                                           'index-type', 'eq-type', 'eq-location', 'none', 'none-no-fsn']
 WHERE = ['inside', 'nested', 'outside', 'after-exception']
 # the object is created in one mode and the breaching value is assigned (through the public setters) in the other
@@ -280,8 +282,14 @@ def breach_spec(aspect):
         ops.append(S.op_add('channel', 'C2', 'LONELY', data=S.arr_spec('uint8', [3], [1, 2, 3])))
     elif aspect == 'channel-in-two-frames':
         ops.append(S.op_add('frame', 'F1', 'SECOND-FRAME', channels=[{'$ref': 'C1'}]))
-    elif aspect == 'non-uniform-index':
+    elif aspect.startswith('non-uniform-index'):
         ops[2]['kw']['data'] = S.arr_spec('float64', [3], [0x3FF0000000000000, 0x4000000000000000, 0x4024000000000000])
+        if aspect.endswith('+spacing'):
+            ops[4]['kw']['spacing'] = 1.0
+        elif aspect.endswith('+direction'):
+            ops[4]['kw']['direction'] = 'INCREASING'
+        elif aspect.endswith('+index-min-max'):
+            ops[4]['kw'].update(index_min=1.0, index_max=10.0)
     elif aspect == 'unit:channel':
         ops[2]['kw']['units'] = 'furlong'
     elif aspect == 'unit:attr':
